@@ -114,9 +114,29 @@ func (e *Engine) verifyFunc(key string, budget int) (res *FuncResult) {
 		}
 		res.LoopsWithInv = len(seen)
 		for _, cl := range ct.Clauses {
-			if cl.Kind == "requires" {
+			if cl.Kind == "requires" || cl.Kind == "assume" || cl.Kind == "preserves" {
 				t := fr.evalSpecBool(cl.Expr, fr.cur, nil, map[string]sval{})
 				c.assume(t)
+				if cl.Kind == "assume" {
+					x.externs[fmt.Sprintf("ASSUMED (unchecked) in contract of %s: %s", key, cl.Text)] = true
+				}
+			}
+		}
+	}
+	if ct != nil {
+		var rely []*Clause
+		for _, cl := range ct.Clauses {
+			if cl.Kind == "preserves" {
+				rely = append(rely, cl)
+				x.externs[fmt.Sprintf("RELY in %s: unknown code (callbacks, interface methods, abstracted callees) preserves %s", key, cl.Text)] = true
+			}
+		}
+		if len(rely) > 0 {
+			c.onHavoc = func(st *State) {
+				for _, cl := range rely {
+					t := fr.evalSpecBool(cl.Expr, st, nil, map[string]sval{})
+					c.assume(imp(st.reach, t))
+				}
 			}
 		}
 	}
@@ -160,7 +180,7 @@ func (fr *Frame) checkPost(ret *ssa.Return, vals []Term) {
 		}
 	}
 	for _, cl := range ct.Clauses {
-		if cl.Kind != "ensures" {
+		if cl.Kind != "ensures" && cl.Kind != "preserves" {
 			continue
 		}
 		for _, cj := range splitConj(cl.Expr) {
@@ -205,8 +225,9 @@ func (fr *Frame) checkFrame(ret *ssa.Return, ct *Contract) {
 			case "field":
 				get(li.comp).refs = append(get(li.comp).refs, li.ref)
 			case "region":
-				get("M").ranges = append(get("M").ranges, locInfo{reg: li.reg})
-				get("MS").ranges = append(get("MS").ranges, locInfo{reg: li.reg})
+				for _, k := range memAll {
+					get(k).ranges = append(get(k).ranges, locInfo{reg: li.reg})
+				}
 			case "range":
 				get(li.comp).ranges = append(get(li.comp).ranges, li)
 			}
@@ -234,7 +255,7 @@ func (fr *Frame) checkFrame(ret *ssa.Return, ct *Contract) {
 			continue
 		}
 		switch {
-		case n == "M" || n == "MS":
+		case n == "M" || n == "MS" || n == "MR" || n == "MB" || n == "MP":
 			r := c.fresh("sk.reg", "Int")
 			i := c.fresh("sk.idx", "Int")
 			var ok []Term
